@@ -23,7 +23,8 @@ SMALL_P_T = SMALL_P_Q + [37, 61, 127, 251]
 def small_curves(tier):
     out = []
     for p in (SMALL_P_T if tier == "thorough" else SMALL_P_Q):
-        cands = [(p - 3, 1), (p - 3, 2), (1, 1), (2, 3), (0, 1) if False else (1, 0), (p - 1, 0), (3, p - 2)]
+        # A = -3 (fast doubling), A = +3 (must NOT take the fast path), A = 0, generic A; then more of each
+        cands = [(p - 3, 1), (3, 1), (0, 1), (1, 1), (p - 3, 2), (3, 2), (2, 3), (1, 0), (p - 1, 0), (0, 2), (3, p - 2)]
         seen = 0
         for a, b in cands:
             a %= p; b %= p
@@ -31,7 +32,7 @@ def small_curves(tier):
                 continue
             out.append((p, a, b))
             seen += 1
-            if seen >= (4 if tier == "thorough" else 3):
+            if seen >= (7 if tier == "thorough" else 4):
                 break
     return out
 
